@@ -247,7 +247,11 @@ def corner_pairs(vals, fn, kinds, names, zhint=26):
             if 0 in s:
                 c.add(0)
             if p == "z":
-                c |= {1, zhint, 92, 99}
+                c |= {1, zhint, 82, 92, 99}
+            if p == "line":
+                c |= {0, 1, 2, 3, -1, -3, -30}        # the four group macros and a few single lines: met with every corner of Z
+            if p == "shell":
+                c |= {0, 1, 3, 4}
             c |= set(r.sample(s, min(len(s), 3)))
             slots.append(((i,), [(v,) for v in sorted(c)]))
         elif k == "d":
